@@ -407,6 +407,12 @@ def check_C17(lines, obs):
         elif ln.startswith("note fresh ") and prev is not None:
             want = "ok " + ln[len("note fresh "):]
             got = prev[1]
+            if ln == "note fresh err":
+                # the current parameters cannot be used: a fresh object raises, so must the recompute
+                if got != "err":
+                    return fail(prev[0], "compute() raises like a fresh object with the same (unusable) parameters", "err", got[:200])
+                prev = None
+                continue
             if got == "err":
                 return fail(prev[0], "compute() succeeds and equals a fresh object", want[:200], "err")
             tw, tg = want.split(" "), got.split(" ")
